@@ -115,7 +115,7 @@ inductive ForeignEv {B : Type} (A : Aead B) (n : Node) : Ev B → Prop where
       A.parse c.body = some (.create ident pk dh) → (n.inUse c.cid = true ∨ n.created.contains c.cid = true) →
       ForeignEv A n (.cell src c ch)
   | createdStale (src : Nat) (c : Cell B) (ch : Choice) (ident key authPk dhRef : Nat) : c.plaintext = true →
-      A.parse c.body = some (.created ident key authPk dhRef) → popCreate n.creates ident = none →
+      A.parse c.body = some (.created ident key authPk dhRef) → popCreate n.creates ident c.cid = none →
       (∀ circ, get n.circuits c.cid = some circ → ¬ (circ.retry ≠ 0 ∧ circ.retry = ident)) →
       ForeignEv A n (.cell src c ch)
   | destroy (signer cid : Nat) (ok : Bool) (reason : Nat) : ¬ (ok = true ∧ Adjacent n signer cid) →
